@@ -50,6 +50,7 @@ struct Info {
     bool multi_value_props = false;    // some property has >= 2 values
     bool dangling_ref = false;         // reference to an absent (by name) or not-added (by pointer) cell
     bool heavy = false;                // large library (thorough only, few configurations)
+    bool multi_top = false;            // >= 2 top-level cells (standard-property refresh over several save/load cycles)
 };
 
 struct Builder {
@@ -275,6 +276,26 @@ inline void add_props(Property*& head, int idx) {
     }
 }
 inline void add_props(Property*& head, const char* label) { add_props(head, find_props(label)); }
+// one property appended at the end of the list (used to plant stale S_* entries as a loaded-then-edited library has)
+inline void append_prop(Property*& head, const char* name, const std::vector<PVal>& vals) {
+    Property** tail = &head;
+    while (*tail) tail = &(*tail)->next;
+    Property* p = (Property*)allocate_clear(sizeof(Property));
+    p->name = copy_string(name, NULL);
+    PropertyValue** vt = &p->value;
+    for (auto& pv : vals) {
+        PropertyValue* v = (PropertyValue*)allocate_clear(sizeof(PropertyValue));
+        switch (pv.t) {
+            case 'u': v->type = PropertyType::UnsignedInteger; v->unsigned_integer = pv.u; break;
+            case 'i': v->type = PropertyType::Integer; v->integer = pv.i; break;
+            case 'r': v->type = PropertyType::Real; v->real = pv.r; break;
+            default: v->type = PropertyType::String; v->count = pv.s.size(); v->bytes = (uint8_t*)allocate(pv.s.size() ? pv.s.size() : 1); memcpy(v->bytes, pv.s.data(), pv.s.size());
+        }
+        *vt = v;
+        vt = &v->next;
+    }
+    *tail = p;
+}
 inline bool props_multi(int idx) {
     for (auto& p : property_lists()[idx].props) if (p.vals.size() >= 2) return true;
     return false;
@@ -866,7 +887,7 @@ inline std::vector<Entry> make_entries() {
                 b.label(c, "other text", Vec2{1, 1}, T(0, 0));
                 b.label(c, "", Vec2{2, 2}, T(0, 0));
             },
-            [](Info& i) { i.has_repetition = true; i.multi_value_props = true; });
+            [](Info& i) { i.has_repetition = true; i.multi_value_props = true; i.multi_top = true; });
     add_rep("hierarchy", "TOP->MID->LEAF with every transform class and arrays; second top cell; cells listed children-last",
             [=](Builder& b) {
                 b.start();
@@ -886,7 +907,55 @@ inline std::vector<Entry> make_entries() {
                 b.ref(top2, leaf, Vec2{1, 2}, 0, 1, true);
                 b.label(top, "top", Vec2{0, 0}, T(9, 9));
             },
-            [](Info& i) { i.has_repetition = true; i.detectable = true; });
+            [](Info& i) { i.has_repetition = true; i.detectable = true; i.multi_top = true; });
+    // libraries for the cycle dimension of the standard properties: 2 and 3 top-level cells, user properties that end up
+    // after (fresh library) / before and between (loaded-then-edited library with stale S_* runs) the standard ones
+    add_rep("two_top_cells_user_props", "top-level cells T1, T2 (T1 references CHILD); library properties mixed5, a",
+            [=](Builder& b) {
+                b.start();
+                Cell* t1 = b.cell("T1"); Cell* t2 = b.cell("T2"); Cell* ch = b.cell("CHILD");
+                b.poly(ch, tri, T(1, 0)); b.ref(t1, ch, Vec2{1, 1}); b.poly(t2, quad, T(2, 0));
+                add_props(b.lib->properties, "mixed5"); add_props(b.lib->properties, "s_text");
+                add_props(t1->properties, "u0");
+            },
+            [](Info& i) { i.multi_top = true; i.multi_value_props = true; });
+    add_rep("three_top_cells", "top-level cells T1, T2, T3 sharing CHILD; no user properties on the library",
+            [=](Builder& b) {
+                b.start();
+                Cell* t1 = b.cell("T1"); Cell* ch = b.cell("CHILD"); Cell* t2 = b.cell("T2"); Cell* t3 = b.cell("T3");
+                b.poly(ch, tri, T(1, 0)); b.ref(t1, ch, Vec2{1, 1}); b.ref(t2, ch, Vec2{2, 2}, M_PI); b.label(t3, "t3", Vec2{0, 0}, T(1, 1)); b.poly(t3, {{0, 0}, {2, 0}, {2, 2}, {0, 2}}, T(1, 0));
+            },
+            [](Info& i) { i.multi_top = true; i.detectable = true; });
+    add_rep("stale_standard_properties_at_head", "2 top-level cells; the library arrives with a run of stale S_TOP_CELL entries at the head of its property list followed by a user property (a loaded-then-edited library); a cell with two stale S_BOUNDING_BOX entries",
+            [=](Builder& b) {
+                b.start();
+                Cell* t1 = b.cell("T1"); Cell* t2 = b.cell("T2");
+                b.poly(t1, tri, T(1, 0)); b.poly(t2, quad, T(2, 0));
+                append_prop(b.lib->properties, "S_TOP_CELL", {ps("OLD1")});
+                append_prop(b.lib->properties, "S_TOP_CELL", {ps("OLD2")});
+                append_prop(b.lib->properties, "S_TOP_CELL", {ps("OLD3")});
+                add_props(b.lib->properties, "mixed5");
+                append_prop(t1->properties, "S_BOUNDING_BOX", {pu(0), pi(1), pi(2), pu(3), pu(4)});
+                append_prop(t1->properties, "S_BOUNDING_BOX", {pu(0), pi(5), pi(6), pu(7), pu(8)});
+                add_props(t1->properties, "s_text");
+            },
+            [](Info& i) { i.multi_top = true; i.multi_value_props = true; });
+    add_rep("stale_standard_properties_in_the_middle", "3 top-level cells; user property, stale S_TOP_CELL x2, stale S_MAX_STRING_LENGTH, S_BOUNDING_BOXES_AVAILABLE, user property",
+            [=](Builder& b) {
+                b.start();
+                Cell* t1 = b.cell("T1"); Cell* t2 = b.cell("T2"); Cell* t3 = b.cell("T3");
+                b.poly(t1, tri, T(1, 0)); b.poly(t2, quad, T(2, 0)); b.fpath(t3, {{0, 0}, {8, 0}}, 1, EndType::Flush, Vec2{0, 0}, T(3, 0));
+                add_props(b.lib->properties, "u0");
+                append_prop(b.lib->properties, "S_TOP_CELL", {ps("OLD1")});
+                append_prop(b.lib->properties, "S_TOP_CELL", {ps("OLD2")});
+                append_prop(b.lib->properties, "S_MAX_STRING_LENGTH", {pu(3)});
+                append_prop(b.lib->properties, "S_BOUNDING_BOXES_AVAILABLE", {pu(2)});
+                add_props(b.lib->properties, "s_space");
+                add_props(t2->properties, "u0");
+                append_prop(t2->properties, "S_CELL_OFFSET", {pu(12345)});
+                append_prop(t2->properties, "S_CELL_OFFSET", {pu(1)});
+            },
+            [](Info& i) { i.multi_top = true; });
     add_rep("dangling", "references to an absent cell by name and to a cell not added to the library by pointer, next to a resolved one",
             [=](Builder& b) {
                 b.start();
